@@ -1364,6 +1364,19 @@ def gen_simd_kernels(repo):
     conds = re.findall(r'\b(if x (?:<|>=) max_x)', body)
     out += '/-- %s: horiz_convolution_four_rows: every intrinsic / helper call with its arguments, in textual order, and the loop guards -/\n' % f
     out += 'def u8x3_sse4_four_rows_skeleton : String := "%s | %s"\n\n' % (sk.replace('"', '\\"'), ' ; '.join(conds))
+    # single-channel 8-bit images, SSE4.1: no masks (`_mm_cvtepu8_epi16`), both kernels pinned by their call sequences
+    f1 = 'src/convolution/u8x1/sse4.rs'
+    with open(os.path.join(repo, f1)) as fh:
+        src1 = fh.read()
+    for fn in ('horiz_convolution_one_row', 'horiz_convolution_four_rows'):
+        m = re.search(r'unsafe fn %s\(.*?\n\}' % fn, src1, re.S)
+        if not m:
+            raise TranslationError("%s: %s not found" % (f1, fn))
+        body = re.sub(r'//[^\n]*', '', m.group(0))
+        calls = re.findall(r'\b(_mm_\w+(?:::<\w+>)?|simd_utils::\w+|chunks_exact|remainder|next|sum|normalizer\.clip|normalizer\.precision)\(([^()]*(?:\([^()]*\)[^()]*)*)\)', body)
+        sk = ' ; '.join('%s(%s)' % (c, ' '.join(a.split())) for c, a in calls)
+        out += '/-- %s: %s: every intrinsic / helper call with its arguments, in textual order -/\n' % (f1, fn)
+        out += 'def u8x1_sse4_%s_skeleton : String := "%s"\n\n' % ('one_row' if fn.endswith('one_row') else 'four_rows', sk.replace('"', '\\"'))
     # the vertical pass for 8-bit components (all four u8 pixel types)
     f = 'src/convolution/vertical_u8/sse4.rs'
     with open(os.path.join(repo, f)) as fh:
